@@ -1264,7 +1264,20 @@ fn parse_expression_with(
                 {
                     let variable = parse_symbol(tokens, id_gen, diagnostics, Some("method name"));
 
-                    if peeked_symbol_is(tokens, "(") {
+                    // Require the parenthesis to touch the method name,
+                    // as for function calls. Otherwise `foo.bar` followed
+                    // by an expression starting with a parenthesis
+                    // (even on the next line) would be read as a method
+                    // call with that expression as its arguments.
+                    let paren_touches = match tokens.peek() {
+                        Some(next_token) => {
+                            next_token.text == "("
+                                && variable.position.end_offset == next_token.position.start_offset
+                        }
+                        None => false,
+                    };
+
+                    if paren_touches {
                         // TODO: just treat a method call as a call of a dot access.
                         let arguments = parse_call_arguments(tokens, id_gen, diagnostics);
 
